@@ -8,6 +8,7 @@
       R <Rx|Ry|Rz|CU1|CRz|CRx> <n>   rotation of phase n/8 (arrays exact for even n; CU1 any n)
       K <k> b1 … bk            Ket(b1, …, bk)          B <k> b1 … bk   Bra(…)
       W                        SWAP                     S a b c d e     scalar (a+bζ+cζ²+dζ³)/2^e
+      Z a b c d e  a' b' c' d' e'   sqrt(z) with z = the first number and the value r of z ** .5 = the second
       Q <name> <nq> <N|0|1> <k> (a b c d e)*k    user-defined QuantumGate(name, nq, array) with `_dagger`
                                None / False / True and its k = 4^nq array entries, row-major
   Matrices are answered as  `ok <rows> <cols> (a b c d e)*`  (row-major, five integers per entry).
@@ -25,7 +26,11 @@
       g2zx <fixed 0|1> <gate>  -> `ok <k> (<zxbox> <off>)*` | err index
       c2zx <fixed> <k> (<l> <gate> <r>)*k    -> same, for a circuit
       gevalasis / gevalfixed <gate>   evaluation with F2 present / repaired, whatever the switch says
-      switches                 -> `ok f2=0|1 f7=0|1 f17=0|1`   positions of the one-line switches
+      switches                 -> `ok f2=0|1 f7=0|1 f17=0|1 f4k=0|1`   positions of the one-line switches
+      sqrtexact <gate>         -> `ok 1` iff the gate is not a sqrt box or carries an exact root (r * r = z)
+      evalmodes <flag> <selfMixed> <k> b1 … bk   circuit.py:247-253: which functor evaluates each circuit of
+                               `self.eval(*others, mixed=flag)`  -> `ok <k+1> (T|C)*`  (T = Tensor, C = CQMap)
+      summodes <flag> <k> b1 … bk                `Sum.eval(mixed=flag)` over k terms -> same | `ok zero`
 -/
 import Driver.Codec
 import Model.Gates
@@ -68,6 +73,7 @@ partial def gate : P Gate := do
   | "B" => do pure (.bra (← many bool))
   | "W" => pure .swap
   | "S" => do pure (.scalar (← cyc))
+  | "Z" => do let z ← cyc; let r ← cyc; pure (.sqrt z r)
   | "Q" => do
     let name ← tok
     let nq ← nat
@@ -112,6 +118,9 @@ def pZXBox : ZXBox → String
 def pZXDiag (d : ZXDiag) : String :=
   "ok " ++ pList (fun (b, o) => s!"{pZXBox b} {o}") d
 
+def pModes (ms : List Bool) : String :=
+  "ok " ++ pList (fun m => if m then "C" else "T") ms
+
 def run {α} (p : P α) (rest : List String) (k : α → String) : Option String :=
   some <| match p.run rest with
     | .error m => "bad " ++ m
@@ -151,7 +160,14 @@ def handle (cmd : String) (rest : List String) : Option String :=
       match circuit2zx f c with
       | .ok d => pZXDiag d
       | .error e => "err " ++ toString e
-  | "switches" => some s!"ok f2={if f2Fixed then 1 else 0} f7={if f7Fixed then 1 else 0} f17={if f17Fixed then 1 else 0}"
+  | "switches" => some s!"ok f2={if f2Fixed then 1 else 0} f7={if f7Fixed then 1 else 0} f17={if f17Fixed then 1 else 0} f4k={if f4kFixed then 1 else 0}"
+  | "sqrtexact" => run gate rest fun g => s!"ok {if g.sqrtExact then 1 else 0}"
+  | "evalmodes" => run (do let f ← bool; let s ← bool; let o ← many bool; pure (f, s, o)) rest fun (f, s, o) =>
+      pModes (evalModes f s o)
+  | "summodes" => run (do let f ← bool; let t ← many bool; pure (f, t)) rest fun (f, t) =>
+      match sumModes f t with
+      | some ms => pModes ms
+      | none => "ok zero"
   | _ => none
 
 end DV.GatesCmd
